@@ -196,6 +196,8 @@ type runEnv struct {
 	rr    *runRec
 	sched *sched // nil: the run is not gated
 	early bool   // "value-steered" checker: return at the first tool-call chunk
+	fut   *futEnv    // workload "future": producer registry, consumers of nested futures (future_test.go)
+	res   *resumeEnv // workload "resume": which calls ask for an interrupt (resume_test.go)
 }
 
 func envOf(ctx context.Context) *runEnv {
@@ -290,6 +292,9 @@ func sameMsgs(a, b []nMsg) bool {
 }
 
 func (m *scripted) Generate(ctx context.Context, input []*schema.Message, _ ...model.Option) (*schema.Message, error) {
+	if err := preemptModel(ctx); err != nil {
+		return nil, err // workload "resume": this attempt asks for an interrupt; it is not a model call of the history
+	}
 	k, c := m.enter(ctx, "generate", input)
 	if len(c.Script) == 0 {
 		return schema.AssistantMessage("call without run context", nil), nil
@@ -298,11 +303,18 @@ func (m *scripted) Generate(ctx context.Context, input []*schema.Message, _ ...m
 }
 
 func (m *scripted) Stream(ctx context.Context, input []*schema.Message, _ ...model.Option) (*schema.StreamReader[*schema.Message], error) {
+	if err := preemptModel(ctx); err != nil {
+		return nil, err
+	}
 	k, c := m.enter(ctx, "stream", input)
 	if len(c.Script) == 0 {
 		return schema.StreamReaderFromArray([]*schema.Message{schema.AssistantMessage("call without run context", nil)}), nil
 	}
 	chunks := chunkMessages(c, k, m.firstChunk)
+	if fe := futOf(ctx); fe != nil && fe.unbuffered {
+		// workload "future": an unbuffered pipe; the producer is released only by a reader or by Close
+		return emitPipe(fe, "model", chunks), nil
+	}
 	if !m.a.PipeModel {
 		return schema.StreamReaderFromArray(chunks), nil
 	}
@@ -384,6 +396,9 @@ type baseTool struct {
 	spec toolSpec
 	c    *caseSpec
 	rec  *recorder
+	// inner (workload "future"): the tool computes its result by running a compiled graph / chain /
+	// workflow / another agent with the context it was handed; nil = the plain function
+	inner *innerRun
 }
 
 func (t *baseTool) Info(context.Context) (*schema.ToolInfo, error) {
@@ -408,7 +423,13 @@ func noteTool(rec *recorder, ctx context.Context, name, args, via string) {
 }
 
 func (t *baseTool) invoke(ctx context.Context, args string) (string, error) {
+	if err := preemptTool(ctx, t.spec.Name, args); err != nil {
+		return "", err // workload "resume": this attempt asks for an interrupt
+	}
 	t.note(ctx, args, "invoke")
+	if t.inner != nil {
+		return t.inner.invoke(ctx, args)
+	}
 	res, ok := toolResult(t.spec.Name, args)
 	if !ok {
 		return "", errTool
@@ -417,7 +438,13 @@ func (t *baseTool) invoke(ctx context.Context, args string) (string, error) {
 }
 
 func (t *baseTool) stream(ctx context.Context, args string) (*schema.StreamReader[string], error) {
+	if err := preemptTool(ctx, t.spec.Name, args); err != nil {
+		return nil, err
+	}
 	t.note(ctx, args, "stream")
+	if t.inner != nil {
+		return t.inner.stream(ctx, args)
+	}
 	res, ok := toolResult(t.spec.Name, args)
 	if !ok && !strings.HasPrefix(args, "!!") {
 		return nil, errTool
@@ -436,7 +463,7 @@ func (t *baseTool) stream(ctx context.Context, args string) (*schema.StreamReade
 	if t.c.ToolChunkMax > 1 {
 		n = r.Range(2, t.c.ToolChunkMax)
 	}
-	return schema.StreamReaderFromArray(splitStr(r, res, n)), nil
+	return emitStrings(ctx, "tool "+t.spec.Name, splitStr(r, res, n)), nil
 }
 
 type invTool struct{ baseTool }
@@ -462,8 +489,11 @@ func (t *bothTool) StreamableRun(ctx context.Context, args string, _ ...tool.Opt
 
 func buildTools(c *caseSpec, rec *recorder) []tool.BaseTool {
 	var out []tool.BaseTool
-	for _, ts := range c.Tools {
+	for i, ts := range c.Tools {
 		b := baseTool{spec: ts, c: c, rec: rec}
+		if c.Future != nil {
+			b.inner = buildInner(c, ts, c.Future.ToolImpl[i], c.Future.ToolVia[i])
+		}
 		switch ts.Kind {
 		case toolInvokable:
 			out = append(out, &invTool{b})
